@@ -77,9 +77,14 @@ Touched(src, dst) ==
     [i \in Ids |->
         IF PairOf(msgs[i].src, msgs[i].dst) = PairOf(src, dst) /\ msgs[i].relClean
         THEN [msgs[i] EXCEPT !.relClean = FALSE] ELSE msgs[i]]
-P_Send(src, dst, t, lat, cmin, cmax) ==
+\* kind: "dgram" = a datagram handed to the receiving application, in arrival order;
+\*       "probe" = a TCP segment for a stream its receiver has already dropped: the receiving host
+\*                 answers it itself (no application sees it; its arrival shows only through the answer);
+\*       "rst"   = that answer, sent by the host itself at the start of its turn (off = 0); its arrival
+\*                 shows as the reset of the sender's stream, not as an item in an ordered queue.
+P_SendK(src, dst, t, lat, cmin, cmax, kind) ==
     /\ msgs' = Append(Touched(src, dst),
-          [src |-> src, dst |-> dst, sendTime |-> t, sendStep |-> pstep,
+          [src |-> src, dst |-> dst, kind |-> kind, sendTime |-> t, sendStep |-> pstep,
            sendNet |-> NetNow, lat |-> lat, cfgMin |-> cmin, cfgMax |-> cmax,
            explAtSend |-> explicit[<<src, dst>>],
            heldAtSend |-> heldDir[<<src, dst>>],
@@ -87,6 +92,7 @@ P_Send(src, dst, t, lat, cmin, cmax) ==
            doomed |-> FALSE, relStep |-> 0, relAmbig |-> FALSE, relClean |-> FALSE, unspec |-> FALSE,
            failAtSend |-> failOn])
     /\ UNCHANGED <<pstep, explicit, heldDir, failOn, rcvd, linksOk>>
+P_Send(src, dst, t, lat, cmin, cmax) == P_SendK(src, dst, t, lat, cmin, cmax, "dgram")
 
 P_Recv(id, h, at) ==
     /\ rcvd' = [rcvd EXCEPT ![h] = Append(@, [id |-> id, at |-> at, step |-> pstep])]
@@ -239,6 +245,7 @@ FlowsWhenNotPartitioned ==
     \A i \in Ids :
         LET m == msgs[i] IN
         (~m.failAtSend /\ ~failOn /\ ~m.explAtSend /\ ~m.doomed /\ ~m.heldEver /\ ~m.unspec
+            /\ m.kind # "probe"      \* no application observes the arrival of a probe
             /\ pstep > MustArriveBy(m))
         => i \in ReceivedIds
 
@@ -258,7 +265,7 @@ ReleasedArrive ==
     \A i \in Ids :
         LET m == msgs[i] IN
         (m.heldEver /\ m.relStep # 0 /\ ~m.unspec /\ ~m.doomed /\ ~m.explAtSend
-            /\ ~m.failAtSend /\ ~failOn
+            /\ ~m.failAtSend /\ ~failOn /\ m.kind # "probe"
             \* the statement sets no deadline for a released message; allow a full
             \* latency window after the release before calling it lost
             /\ pstep > m.relStep + CeilDiv(m.cfgMax, Tick) + 2)
@@ -268,6 +275,7 @@ FifoOnRelease ==
     \A h \in Hosts : \A j, k \in 1..Len(rcvd[h]) :
         (j < k /\ SameDirection(R(h, j).id, R(h, k).id)
              /\ M(h, j).heldEver /\ M(h, k).heldEver
+             /\ M(h, j).kind = "dgram" /\ M(h, k).kind = "dgram"    \* arrival order observable
              /\ ~M(h, j).unspec /\ ~M(h, k).unspec
              /\ M(h, j).relStep = M(h, k).relStep)
         => R(h, j).id < R(h, k).id
@@ -290,6 +298,7 @@ FifoEqualLatency ==
     \A h \in Hosts : \A j, k \in 1..Len(rcvd[h]) :
         (j < k /\ SameDirection(R(h, j).id, R(h, k).id)
              /\ ~M(h, j).heldEver /\ ~M(h, k).heldEver
+             /\ M(h, j).kind = "dgram" /\ M(h, k).kind = "dgram"
              /\ EqualLatency(M(h, j), M(h, k)))
         => R(h, j).id < R(h, k).id
 
